@@ -221,6 +221,10 @@ def unsafe_sites():
                 back = toks[max(0, k - 4):k]
                 if any(t[1] == "#" for t in back) and any(t[1] == "[" for t in back):
                     sites.append((fi, line, text))
+    for rel, line, text in doctest_unsafe_sites():
+        full = os.path.join(REPO, rel)
+        if full in files:
+            sites.append((files.index(full), line, text))
     return files, sites
 
 
@@ -434,6 +438,157 @@ def dict_sizes(nums):
     return sorted(out)[:36]
 
 
+
+# ---------------------------------------------------------------- tie precondition: no ambient state
+# The correspondence checks compare the implementation with a model that is a FUNCTION of the buffer / adapter state and
+# the call's arguments.  That is only meaningful while the library's behaviour cannot depend on anything else: process
+# environment, time, thread identity or unwinding state, statics / thread-locals shared between values, addresses,
+# properties of type parameters (size, name, TypeId), the tokio runtime.  These tokens in non-test library code void it.
+AMBIENT_IDENTS = {
+    "thread_local": "thread-local state shared between values",
+    "lazy_static": "global state", "OnceCell": "global state", "OnceLock": "global state", "LazyLock": "global state", "LazyCell": "global state",
+    "Mutex": "shared mutable state", "RwLock": "shared mutable state", "Condvar": "shared mutable state",
+    "panicking": "depends on the thread's unwinding state",
+    "Instant": "depends on time", "SystemTime": "depends on time", "UNIX_EPOCH": "depends on time",
+    "size_of": "depends on the size of a type (parameter)", "size_of_val": "depends on the size of a value's type",
+    "align_of": "depends on the alignment of a type", "align_of_val": "depends on alignment", "align_offset": "depends on an address",
+    "type_name": "depends on a type's name", "TypeId": "depends on a type's identity", "type_id": "depends on a type's identity",
+    "as_ptr": "address of a buffer", "as_mut_ptr": "address of a buffer", "addr_of": "address", "addr_of_mut": "address", "addr": "address",
+    "RandomState": "randomised hashing", "DefaultHasher": "hashing with process-wide keys", "HashMap": "iteration order of a hash map", "HashSet": "iteration order of a hash set",
+    "var_os": "process environment", "vars_os": "process environment", "set_var": "process environment", "remove_var": "process environment",
+    "yield_now": "scheduler", "spawn": "spawns a task / thread", "block_on": "runtime", "sleep": "time",
+    "File": "file system", "OpenOptions": "file system", "TcpStream": "network", "UdpSocket": "network", "stdin": "process I/O",
+}
+for _a in ("AtomicBool", "AtomicU8", "AtomicU16", "AtomicU32", "AtomicU64", "AtomicUsize", "AtomicI8", "AtomicI16", "AtomicI32", "AtomicI64", "AtomicIsize", "AtomicPtr"):
+    AMBIENT_IDENTS[_a] = "shared mutable state"
+AMBIENT_PATH_HEADS = {"env": "process environment", "thread": "thread identity / state", "time": "time", "process": "process state", "fs": "file system", "net": "network"}
+TOKIO_ALLOWED = {"tokio", "io", "AsyncRead", "AsyncWrite", "AsyncReadExt", "AsyncWriteExt", "AsyncBufRead", "ReadBuf", "self",
+                 "macros", "support", "Pin", "Poll"}   # `tokio::macros::support::{Pin, Poll}`: re-exports of core types, used by the pinned tree
+
+
+def ambient_sites():
+    """(file, line, token, why) for every ambient-state token in NON-TEST library code of both crates"""
+    out = []
+    for c in CRATES:
+        for f in sorted(glob.glob(os.path.join(REPO, c, "src", "**", "*.rs"), recursive=True)):
+            if os.path.basename(f) == "test_utils.rs":
+                continue
+            toks = lex(open(f, encoding="utf-8", errors="replace").read())
+            rel = os.path.relpath(f, REPO)
+            # skip #[cfg(test)] items: track brace depth of test regions
+            depth = 0
+            test_depths = []
+            pending_test = False
+            k = 0
+            while k < len(toks):
+                kind, text, line = toks[k]
+                if text == "#" and k + 1 < len(toks) and toks[k + 1][1] == "[":
+                    j = k + 2
+                    d = 1
+                    body = []
+                    while j < len(toks) and d:
+                        if toks[j][1] == "[":
+                            d += 1
+                        elif toks[j][1] == "]":
+                            d -= 1
+                        if d:
+                            body.append(toks[j][1])
+                        j += 1
+                    if "cfg" in body and "test" in body:
+                        pending_test = True
+                    elif body[:1] == ["test"]:
+                        pending_test = True
+                    k = j
+                    continue
+                if text == "{":
+                    depth += 1
+                    if pending_test:
+                        test_depths.append(depth)
+                        pending_test = False
+                elif text == "}":
+                    if test_depths and test_depths[-1] == depth:
+                        test_depths.pop()
+                    depth -= 1
+                elif text == ";" and pending_test and not test_depths:
+                    pending_test = False   # `#[cfg(test)] mod x;` / `use` item without a body
+                in_test = bool(test_depths) or pending_test
+                if not in_test and kind == "ident":
+                    nxt = toks[k + 1][1] if k + 1 < len(toks) else ""
+                    nxt2 = toks[k + 2][1] if k + 2 < len(toks) else ""
+                    prv = toks[k - 1][1] if k > 0 else ""
+                    if text in AMBIENT_IDENTS:
+                        out.append((rel, line, text, AMBIENT_IDENTS[text]))
+                    elif text in AMBIENT_PATH_HEADS and ((nxt == ":" and nxt2 == ":") or (prv == ":" and k > 1 and toks[k - 2][1] == ":" and k > 2 and toks[k - 3][1] in ("std", "core"))):
+                        out.append((rel, line, text + "::", AMBIENT_PATH_HEADS[text]))
+                    elif text == "static" and nxt != "'" and not (prv == "'"):
+                        # a `static` item (the lexer reports the lifetime 'static as kind "lifetime", not as this ident)
+                        out.append((rel, line, "static", "a static item: state outside any buffer value"))
+                    elif text == "tokio" and nxt == ":" and nxt2 == ":":
+                        # a path `tokio :: seg :: seg ...` (also `{a, b}` groups right after it)
+                        j = k + 1
+                        segs = ["tokio"]
+                        while j + 2 < len(toks) and toks[j][1] == ":" and toks[j + 1][1] == ":":
+                            if toks[j + 2][0] == "ident":
+                                segs.append(toks[j + 2][1])
+                                j += 3
+                            elif toks[j + 2][1] == "{":
+                                j += 3
+                                while j < len(toks) and toks[j][1] != "}":
+                                    if toks[j][0] == "ident":
+                                        segs.append(toks[j][1])
+                                    j += 1
+                                break
+                            else:
+                                break
+                        # modules and types must be on the allow-list; a lower-case segment after a trait is one of its methods
+                        bad = []
+                        for i, x in enumerate(segs):
+                            if x in TOKIO_ALLOWED:
+                                continue
+                            if x[:1].islower() and i > 0 and segs[i - 1][:1].isupper():
+                                continue
+                            bad.append(x)
+                        if bad:
+                            out.append((rel, line, "::".join(segs), "tokio API beyond the AsyncRead / AsyncWrite traits (runtime / scheduler state)"))
+                k += 1
+    return out
+
+
+def doctest_unsafe_sites():
+    """`unsafe` (and the lint's attributes) inside fenced code blocks of doc comments: rustdoc compiles and runs them as tests"""
+    out = []
+    for f in rust_files():
+        rel = os.path.relpath(f, REPO)
+        in_block = False
+        skip = False
+        block = []
+        start = 0
+        for ln, raw in enumerate(open(f, encoding="utf-8", errors="replace").read().split("\n"), 1):
+            t = raw.strip()
+            if not (t.startswith("///") or t.startswith("//!")):
+                in_block = False
+                block = []
+                continue
+            body = t[3:]
+            if body.strip().startswith("```"):
+                if not in_block:
+                    info = body.strip()[3:].strip().lower()
+                    skip = any(x in info.split(",") for x in ("text", "ignore", "sh", "bash", "toml", "console", "plain"))
+                    in_block = True
+                    block = []
+                    start = ln
+                else:
+                    if not skip:
+                        for kind, text, l2 in lex("\n".join(block)):
+                            if kind == "ident" and text in ("unsafe", "no_mangle", "export_name", "link_section"):
+                                out.append((rel, start + l2, text + " (doc test)"))
+                    in_block = False
+                continue
+            if in_block:
+                block.append(body)
+    return out
+
+
 def lean_str(s):
     return '"' + s.replace("\\", "\\\\").replace('"', '\\"') + '"'
 
@@ -516,6 +671,8 @@ if __name__ == "__main__":
         os.makedirs(os.path.dirname(out), exist_ok=True)
         open(out, "w").write("".join(t.hex() + "\n" for t in d))
         print(json.dumps({"dict": out, "tokens": len(d), "multi_byte": [t.hex() for t in d if len(t) > 1][:80]}))
+    elif "--ambient" in sys.argv:
+        print(json.dumps([{"file": f, "line": l, "token": t, "why": w} for f, l, t, w in ambient_sites()]))
     elif "--nums" in sys.argv:
         k = sys.argv.index("--nums")
         out = sys.argv[k + 1]
